@@ -108,6 +108,8 @@ def edit_histories(profile, max_feats=10, with_ctcs=False, max_edits=3):
         edits, cur = [], m
         for _ in range(draw(st.integers(1, max_edits))):
             label, cur = c20.apply_edit(draw, cur, only=only)
+            present = set(build.names(cur))        # a constraint naming a removed feature goes with it
+            cur["ctcs"] = [c for c in cur["ctcs"] if build.expr_refs(c["ast"]) <= present]
             edits.append({"label": label, "model": cur})
         return {"model": m, "edits": edits}
     return gen()
@@ -122,3 +124,101 @@ def morph_checked(fm, spec):
     if problems:
         raise AssertionError(f"harness: build.morph did not produce the edited model: {problems[:2]}")
     return fm
+
+
+def large_models(biggest=300):
+    """Models beyond brute force: 1-4 wide groups under the root (2-12, 40-90 or 250-`biggest` leaves; binomials above
+    2^53, sizes above CPython's small-integer cache), some children with a small subtree; bounds 0 <= lo <= hi <= k
+    with hi >= 1, or hi = * ."""
+    @st.composite
+    def gen(draw):
+        n_groups = draw(st.integers(1, 4))
+        rels = []
+        idx = [0]
+
+        def leaf():
+            idx[0] += 1
+            return build.feat(f"L{idx[0]}")
+        for _ in range(n_groups):
+            k = draw(st.one_of(st.integers(2, 12), st.integers(40, 90), st.integers(250, biggest)))
+            lo = draw(st.one_of(st.integers(0, k), st.sampled_from([0, 1, k - 1, k, k])))
+            hi = draw(st.one_of(st.integers(max(lo, 1), k), st.just(k), st.just(-1)))
+            kids = [leaf() for _ in range(k)]
+            if draw(st.booleans()):      # some children get a small subtree
+                j = draw(st.integers(0, k - 1))
+                kids[j]["rels"].append(build.rel(0, 1, [leaf(), leaf()]))
+                if draw(st.booleans()):
+                    kids[j]["rels"].append(build.rel(1, 1, [leaf()]))
+            rels.append(build.rel(lo, hi, kids))
+        root = build.feat("Root", rels)
+        ctcs = []
+        if draw(st.integers(0, 2)) == 0:
+            ctcs = [{"name": "T", "ast": ["OR", ["T", "L1"], ["NOT", ["T", "L1"]]]}]
+        return {"root": root, "ctcs": ctcs}
+    return gen()
+
+
+def large_classes(case):
+    out = set()
+    for r, _ in build.iter_rels(case["root"]):
+        if len(r["children"]) >= 57:
+            out.add("group>=57")
+        if len(r["children"]) >= 257:
+            out.add("group>=257")
+        if r["max"] == -1:
+            out.add("rel:star")
+        if r["min"] == len(r["children"]) and len(r["children"]) >= 2:
+            out.add("forced-by-group")
+    if case["ctcs"]:
+        out.add("with-tautology")
+    return out
+
+
+def forced_links(model):
+    """Constraint-free tree in which every feature is selectable (all max >= 1 or *): child <=> parent exactly when
+    the relation demands all of its members (min == number of children).  Returns (always_selected_names,
+    component_id_by_name) - the exact always-selected set and the exact classes of always-co-selected features."""
+    comp, always = {}, set()
+    stack = [(model["root"], True, 0)]
+    next_id = [1]
+    comp[model["root"]["name"]] = 0
+    while stack:
+        f, core, cid = stack.pop()
+        if core:
+            always.add(f["name"])
+        for r in f["rels"]:
+            forced = r["min"] == len(r["children"])
+            for c in r["children"]:
+                if forced:
+                    comp[c["name"]] = cid
+                    stack.append((c, core, cid))
+                else:
+                    comp[c["name"]] = next_id[0]
+                    stack.append((c, False, next_id[0]))
+                    next_id[0] += 1
+    return always, comp
+
+
+def constraint_list_models(max_feats=10):
+    """boolean_any models whose constraint section is a list of simple forms between features related in the tree."""
+    return st.one_of(S.model_specs(S.BOOLEAN_ANY, 2, max_feats, ctc_mode="structured"),
+                     S.model_specs(S.BOOLEAN_STAR, 2, max_feats, ctc_mode="structured"))
+
+
+def run_with_edits(case, check_fm, pid):
+    """check_fm(fm, model, out) on the model and then, for edit histories, on the same object after each in-place
+    edit (the claims are about the model as it is now)."""
+    model = case["model"] if "edits" in case else case
+    out = []
+    fm = build.build(model)
+    check_fm(fm, model, out)
+    for step, ed in enumerate(case.get("edits", []) if "edits" in case else []):
+        morph_checked(fm, ed["model"])
+        sub_out = []
+        check_fm(fm, ed["model"], sub_out)
+        out += [(k.replace(pid + ".", pid + ".after-in-place-edit.", 1), f"step {step} ({ed['label']}): {d}") for k, d in sub_out]
+    return out
+
+
+def edit_classes(case):
+    return {"edit:" + e["label"] for e in case["edits"]}
